@@ -60,6 +60,9 @@ func checkC07(c *Ctx) {
 	c.Rule("C07-R14", "a printf-style conversion formats an operand coerced to what the conversion byte asks for: the element popped as a number for %d %x %X %o %c, popped as a string for %s (the stack holds both side by side: %P stores strings, parameters may be either)")
 	c.Expect("C07-R14", 2)
 	checkFormattedOperandCoerced(c, p, "C07-R14")
+	c.Rule("C07-R16", "every way of completing an operator takes the same number of operands off the stack (a shortcut for a zero divisor that pushes before the dividend is popped leaves the dividend under the result)")
+	c.Expect("C07-R16", 1)
+	checkOperandsConsumedAlike(c, p, "C07-R16")
 	c.Rule("C07-R15", "%d writes the decimal form of the number it pops: strconv's form handed to the output, or a helper decided by constant evaluation for every number from -1000 to 70000 (= C15-R10)")
 	c.Expect("C07-R15", 1)
 	c.asRule("C15-R10", "C07-R15", func() { checkDecimalOutput(c, p, "C15-R10") })
